@@ -20,7 +20,6 @@ import (
 	"math"
 	"math/rand"
 	"sort"
-	"time"
 )
 
 const (
@@ -58,12 +57,14 @@ const (
 )
 
 func RandBytes(n int) []byte {
-	source := rand.NewSource(time.Now().UnixNano())
+	// The shared, automatically seeded math/rand source is used: a source
+	// re-seeded from the clock on every call repeats its output whenever two
+	// calls see the same (truncated) seed.
 	b := make([]byte, n)
-	// A src.Int63() generates 63 random bits, enough for letterIdxMax characters!
-	for i, cache, remain := n-1, source.Int63(), letterIdxMax; i >= 0; {
+	// A rand.Int63() generates 63 random bits, enough for letterIdxMax characters!
+	for i, cache, remain := n-1, rand.Int63(), letterIdxMax; i >= 0; {
 		if remain == 0 {
-			cache, remain = source.Int63(), letterIdxMax
+			cache, remain = rand.Int63(), letterIdxMax
 		}
 		if idx := int(cache & letterIdxMask); idx < len(letterBytes) {
 			b[i] = letterBytes[idx]
